@@ -484,6 +484,8 @@ class Engine:
         self.branch_timeout_ms = 5000
         self.prove_timeout_ms = 20000
         self.stale_notes = set()
+        self.lazy_mode = 'havoc'            # how a pre-state shape is completed with attributes added to the class later
+        self.lazy_attrs = set()
         self.harness_budget_s = 90         # wall-clock budget per harness; exceeding it is "undecided", never a verdict
         self.deadline = None
         self.quant_first_try_ms = 800      # first attempt on queries with quantified assumptions before qinst takes over
@@ -940,8 +942,14 @@ class Engine:
                         val = self.eval(node, env)
                     except (PyExc, KeyError):
                         raise Unsupported(msg)
+                    if self.lazy_mode == 'havoc' and isinstance(val, (bool, int)) and not isinstance(val, EnumMember):
+                        # a new scalar attribute: verify for EVERY value it could hold (sound over-approximation); only if an
+                        # obligation then fails is the harness re-run with the initial value (check.run_harness)
+                        val = self.fresh_bool('new.' + name) if isinstance(val, bool) else self.fresh_int('new.' + name)
+                        self.lazy_attrs.add('%s.%s' % (obj.cls.name, name))
+                    else:
+                        self.stale_notes.add(msg + ' (checked with its initial value only)')
                     obj.attrs[name] = val
-                    self.stale_notes.add(msg + ' (checked with its initial value only)')
                     return val
                 self.throw('AttributeError', "'%s' object has no attribute '%s'" % (obj.cls.name, name))
             return self._bind(v, obj, owner)
